@@ -2,6 +2,8 @@
 SPECIFICATION Spec
 CONSTANTS
   Variant = "nasa_Cp"
+  ShomateOwn <- MCShomateOwn
+  ClassFilter <- MCNasas
 INVARIANT TypeOK
 INVARIANT WellFormed
 INVARIANT Refines
